@@ -19,6 +19,8 @@ import (
 	"runtime/debug"
 	"sort"
 	"strings"
+	"sync"
+	"time"
 )
 
 // A stream is one correspondence stream: a generator of case lines, the
@@ -36,6 +38,8 @@ type stream struct {
 	class func(args []string, out string) string
 	// nontrivial says whether a case counts as non-trivial for evidence.
 	nontrivial func(args []string, out string) bool
+	// propTimeout overrides the watchdog of the property oracle (oracles with their own deadlines).
+	propTimeout time.Duration
 	// known maps a case on which prop fails to the class id of a known finding
 	// ("" if it belongs to none). Classes are listed in /verif/known_findings.json.
 	known func(args []string) string
@@ -47,7 +51,81 @@ var streams = map[string]*stream{}
 
 func register(s *stream) { streams[s.name] = s }
 
-func safeImpl(s *stream, args []string) (out string) {
+// Watchdog: a case on which the implementation (or an oracle calling it) does not return is
+// reported as "hang" instead of blocking the run. The goroutine cannot be stopped and keeps a core
+// busy, so after maxHangs such cases the remaining ones are answered without being run.
+var (
+	hangs    int
+	maxHangs = 4
+)
+
+func caseTimeout(env string, def time.Duration) time.Duration {
+	if v := os.Getenv(env); v != "" {
+		if d, err := time.ParseDuration(v); err == nil {
+			return d
+		}
+	}
+	return def
+}
+
+func watchdog(d time.Duration, f func() string, onHang, afterHangs string) string {
+	if hangs >= maxHangs {
+		return afterHangs
+	}
+	ch := make(chan string, 1)
+	go func() { ch <- f() }()
+	select {
+	case s := <-ch:
+		return s
+	case <-time.After(d):
+		hangs++
+		return onHang
+	}
+}
+
+// implStuck is set once a guarded call into the implementation made by a generator or an oracle
+// helper did not return; later guarded calls then return their fallback at once.
+var implStuck bool
+
+// guard runs f (a call into the implementation) with a time limit and under recover.
+func guard[T any](d time.Duration, fallback T, f func() T) T {
+	if implStuck {
+		return fallback
+	}
+	ch := make(chan T, 1)
+	go func() {
+		defer func() {
+			if p := recover(); p != nil {
+				ch <- fallback
+			}
+		}()
+		ch <- f()
+	}()
+	select {
+	case v := <-ch:
+		return v
+	case <-time.After(d):
+		implStuck = true
+		return fallback
+	}
+}
+
+func safeImpl(s *stream, args []string) string {
+	d := caseTimeout("VERIF_IMPL_TIMEOUT", 30*time.Second)
+	return watchdog(d, func() string { return safeImpl0(s, args) },
+		"hang (no result within "+d.String()+")", "skip-after-hangs")
+}
+
+func safeProp(s *stream, args []string) string {
+	d := caseTimeout("VERIF_PROP_TIMEOUT", 2*time.Minute)
+	if s.propTimeout > d {
+		d = s.propTimeout
+	}
+	return watchdog(d, func() string { return safeProp0(s, args) },
+		"FAIL hang: the property oracle (which calls the implementation) did not return within "+d.String(), "skip")
+}
+
+func safeImpl0(s *stream, args []string) (out string) {
 	defer func() {
 		if r := recover(); r != nil {
 			out = "panic " + encStr(fmt.Sprint(r))
@@ -59,7 +137,7 @@ func safeImpl(s *stream, args []string) (out string) {
 	return s.impl(args)
 }
 
-func safeProp(s *stream, args []string) (out string) {
+func safeProp0(s *stream, args []string) (out string) {
 	if s.prop == nil {
 		return "skip"
 	}
@@ -117,14 +195,38 @@ func main() {
 			os.Exit(2)
 		}
 		r := rand.New(rand.NewSource(*seed*7919 + int64(len(name))))
-		s.gen(r, *n, func(args ...string) {
-			out.WriteString(name)
-			for _, a := range args {
-				out.WriteByte(' ')
-				out.WriteString(a)
-			}
-			out.WriteByte('\n')
-		})
+		// Generators call the implementation for spelling and tokenising (QuoteIdent, the
+		// scanner, ...). If the implementation panics or does not return there, the cases
+		// written so far are delivered (they are what the run is judged on) instead of
+		// taking the run down: the defect shows in the impl / prop passes.
+		var mu sync.Mutex
+		done := make(chan struct{})
+		go func() {
+			defer close(done)
+			defer func() {
+				if p := recover(); p != nil {
+					fmt.Fprintf(os.Stderr, "generator %s stopped early: panic: %v\n", name, p)
+				}
+			}()
+			s.gen(r, *n, func(args ...string) {
+				mu.Lock()
+				defer mu.Unlock()
+				out.WriteString(name)
+				for _, a := range args {
+					out.WriteByte(' ')
+					out.WriteString(a)
+				}
+				out.WriteByte('\n')
+			})
+		}()
+		select {
+		case <-done:
+		case <-time.After(caseTimeout("VERIF_GEN_TIMEOUT", 2*time.Minute+time.Duration(*n)*2*time.Millisecond)):
+			fmt.Fprintf(os.Stderr, "generator %s stopped early: no progress (a call into the implementation does not return)\n", name)
+		}
+		mu.Lock()
+		out.Flush()
+		os.Exit(0)
 	case "impl":
 		eachLine(func(name string, s *stream, args []string, raw string) {
 			if s == nil {
